@@ -314,7 +314,7 @@ def _parse_tool_output(out: str, res: TLCResult, parse_traces: bool = True):
 
 def run_tlc(tla: str, cfg: Optional[str] = None, *, workers: int | str = int(os.environ.get("VERIF_TLC_WORKERS", "16")), simulate: Optional[str] = None,
             depth: Optional[int] = None, coverage: bool = False, cont: bool = False,
-            dump_dot: Optional[str] = None, deadlock: Optional[bool] = None, seed: Optional[int] = None,
+            dump_dot: Optional[str] = None, dump_states: Optional[str] = None, deadlock: Optional[bool] = None, seed: Optional[int] = None,
             env: Optional[dict] = None, timeout: float = 1800, extra: Iterable[str] = (),
             java_opts: Iterable[str] = (), parse_traces: bool = True, max_heap: str = os.environ.get('VERIF_TLC_HEAP', '4g'),
             dfid: Optional[int] = None) -> TLCResult:
@@ -348,6 +348,8 @@ def run_tlc(tla: str, cfg: Optional[str] = None, *, workers: int | str = int(os.
         cmd += ['-continue']
     if dump_dot:
         cmd += ['-dump', 'dot,actionlabels', dump_dot]
+    if dump_states:
+        cmd += ['-dump', dump_states]
     if deadlock is False:
         cmd += ['-deadlock']
     if seed is not None:
@@ -619,7 +621,7 @@ def validate_traces(tla: str, cfg: str, traces: list, *, diag_cfg: Optional[str]
             if bad or not res.finished:
                 raise TLCError(f'trace validation run failed: {[(i.kind, i.name, i.message[:300]) for i in bad]}\n{res.raw[-3000:]}')
             joined = ' '.join(res.prints)
-            for m in re.finditer(r'<<"ACCEPT", (\d+), (\{[^}]*\})>>', joined):
+            for m in re.finditer(r'<<\s*"ACCEPT",\s*(\d+),\s*(\{[^}]*\})\s*>>', joined):
                 tid = int(m.group(1)) + base
                 marks = parse_value(m.group(2))
                 v.accepted.setdefault(tid, set()).update(marks)
@@ -629,13 +631,38 @@ def validate_traces(tla: str, cfg: str, traces: list, *, diag_cfg: Optional[str]
                     v.rejected[tid] = dict(kind='rejected', name='?', at=None, detail='')
         # diagnose
         for tid in sorted(v.rejected)[:max_diag]:
-            v.rejected[tid] = diagnose_trace(tla, diag_cfg or cfg, traces[tid - 1], env=env, tmpdir=d, results=v.diag_results)
+            v.rejected[tid] = diagnose_trace(tla, diag_cfg or cfg, traces[tid - 1], env=env, tmpdir=d,
+                                             results=v.diag_results, constraint_cfg=cfg)
         return v
     finally:
         shutil.rmtree(d, ignore_errors=True)
 
 
-def diagnose_trace(tla: str, diag_cfg: str, trace: list, *, env=None, tmpdir=None, results=None) -> dict:
+def _max_l_in_dump(path: str):
+    """Largest value of the trace position `l` among the states TLC dumped, with that state's text."""
+    best, best_txt = None, ''
+    try:
+        with open(path, encoding='utf8', errors='replace') as fh:
+            txt = fh.read()
+    except OSError:
+        return None, ''
+    for block in re.split(r'(?m)^State \d+:\s*$', txt):
+        m = re.search(r'(?m)^/\\ l = (\d+)\s*$', block)
+        if m:
+            v = int(m.group(1))
+            if best is None or v > best:
+                best, best_txt = v, block.strip()
+    return best, best_txt
+
+
+def diagnose_trace(tla: str, diag_cfg: str, trace, *, env=None, tmpdir=None, results=None,
+                   constraint_cfg: Optional[str] = None) -> dict:
+    """Say why a single trace is rejected (wording only; the verdict is the missing ACCEPT).
+
+    Run A (constraint cfg, states dumped): Lc = the furthest position a property-respecting path reaches.
+    Run B (diag cfg: properties as INVARIANT/PROPERTY, -continue): property violations with their position.
+    A property violation at or before Lc + 1 explains the rejection; otherwise no spec action matches the
+    event at Lc.  (TLC reports only the first deadlock even with -continue, so deadlocks are not used.)"""
     own = tmpdir is None
     d = tmpdir or tempfile.mkdtemp(prefix='tlctr-')
     try:
@@ -644,10 +671,17 @@ def diagnose_trace(tla: str, diag_cfg: str, trace: list, *, env=None, tmpdir=Non
             json.dump([trace], fh)
         e = dict(env or {})
         e['TRACE_FILE'] = f
-        res = run_tlc(tla, diag_cfg, workers=1, deadlock=True, cont=True, env=e, timeout=600)
+        lc, lc_state = None, ''
+        if constraint_cfg:
+            dump = os.path.join(d, 'dumpA')
+            ra = run_tlc(tla, constraint_cfg, workers=1, deadlock=False, env=e, timeout=600, dump_states=dump,
+                         parse_traces=False)
+            if results is not None:
+                results.append(ra)
+            lc, lc_state = _max_l_in_dump(dump + '.dump' if os.path.exists(dump + '.dump') else dump)
+        res = run_tlc(tla, diag_cfg, workers=1, deadlock=False, cont=True, env=e, timeout=600)
         if results is not None:
             results.append(res)
-        # property violations first
         best = None
         for iss in res.issues:
             if iss.kind in ('invariant', 'action_property', 'assert'):
@@ -658,17 +692,13 @@ def diagnose_trace(tla: str, diag_cfg: str, trace: list, *, env=None, tmpdir=Non
                             detail=_fmt_trace_tail(iss), event=_event_at(trace, l, -1))
                 if best is None or (l or 0) < (best['at'] or 10 ** 9):
                     best = cand
+        if best and (lc is None or best['at'] is None or best['at'] <= lc + 1):
+            return best
+        if lc is not None:
+            return dict(kind='unexplained_event', name='NoSpecActionMatches', at=lc,
+                        detail=lc_state[:2000], event=_event_at(trace, lc, 0))
         if best:
             return best
-        deep = None
-        for iss in res.issues:
-            if iss.kind == 'deadlock' and iss.trace:
-                l = iss.trace[-1][1].get('l')
-                if deep is None or (l or 0) > (deep['at'] or 0):
-                    deep = dict(kind='unexplained_event', name='NoSpecActionMatches', at=l,
-                                detail=_fmt_trace_tail(iss), event=_event_at(trace, l, 0))
-        if deep:
-            return deep
         return dict(kind='rejected', name='?', at=None,
                     detail='; '.join(f'{i.kind}:{i.name}:{i.message[:200]}' for i in res.issues) or res.raw[-1500:])
     finally:
